@@ -183,143 +183,150 @@ func C26(c *core.Ctx) {
 	r := c.Rand("c26")
 	n := c.Pick(160, 1200)
 	for i := 0; i < n; i++ {
-		managed := i%2 == 0
-		incremental := i%3 == 1
-		concurrent := i%8 == 5 || i%8 == 2 // Write called from one goroutine per stream
-		dir := filepath.Join(work, fmt.Sprintf("sw%d", i))
-		_ = os.MkdirAll(dir, 0o755)
-		opt, name := drvOptions(dir, i)
-		opt.NumVersionsToKeep = 1 << 30
-		// compaction is disabled here; incremental rounds may place many tables on L0, which must not
-		// stall the final memtable flush forever
-		opt.NumLevelZeroTablesStall = 1 << 20
-		sizes := []int{0, 10, int(opt.ValueThreshold) - 1, int(opt.ValueThreshold), int(opt.ValueThreshold) + 1, 700}
-		db, err := openDB(opt, managed)
-		if err != nil {
-			c.Inconclusive("open: " + err.Error())
-			continue
-		}
-		c.Eval(1)
-		m := model.New()
-		info := map[string]any{"options": name, "managed": managed, "incremental": incremental, "concurrent_writes": concurrent}
-		fail := func(sig, what string) {
-			c.Violation("C26|"+sig, what, info)
-		}
-		ok := true
-		nStreams := 1 + r.Intn(8)
-		done := r.Intn(2) == 0
-		info["streams"], info["done_markers"] = nStreams, done
-		var maxStreamed uint64
-		rounds := 1
-		if incremental {
-			rounds = 1 + r.Intn(3)
-		} else if r.Intn(2) == 0 {
-			// previously filled database: Prepare must drop it
-			for j := 0; j < 20; j++ {
-				var err error
-				if managed {
-					txn := db.NewTransactionAt(5, true)
-					_ = txn.Set([]byte(fmt.Sprintf("old%02d", j)), []byte("old"))
-					err = txn.CommitAt(5, nil)
-				} else {
-					err = db.Update(func(txn *badger.Txn) error { return txn.Set([]byte(fmt.Sprintf("old%02d", j)), []byte("old")) })
-				}
-				if err != nil {
-					fail("prefill", err.Error())
-				}
-			}
-			info["prefilled"] = true
-		}
-		for round := 0; round < rounds && ok; round++ {
-			lo := uint64(10 + 100*round)
-			nk := 5 + r.Intn(150)
-			if concurrent {
-				nk = 3000 + r.Intn(3000)
-			}
-			ents := genStreamData(r, nk, lo, lo+90, fmt.Sprintf("s%d.", round), sizes)
-			if concurrent {
-				// the globally newest version sits in one of the small trailing ranges
-				for j := len(ents) - 1 - r.Intn(len(ents)/20); j >= 0; j-- {
-					if j == 0 || ents[j-1].key != ents[j].key {
-						ents[j].ver.Ts = lo + 95
-						break
-					}
-				}
-			}
-			sw := db.NewStreamWriter()
-			if incremental {
-				err = sw.PrepareIncremental()
-			} else {
-				err = sw.Prepare()
-			}
-			if err != nil {
-				fail("prepare", err.Error())
-				ok = false
-				break
-			}
-			if concurrent {
-				err = streamInConcurrent(sw, ents, nStreams)
-			} else {
-				err = streamIn(sw, r, ents, nStreams, done)
-			}
-			if err != nil {
-				fail("write", err.Error())
-				sw.Cancel()
-				ok = false
-				break
-			}
-			if err := sw.Flush(); err != nil {
-				fail("flush", err.Error())
-				ok = false
-				break
-			}
-			for _, e := range ents {
-				m.Put(e.key, e.ver)
-				if e.ver.Ts > maxStreamed {
-					maxStreamed = e.ver.Ts
-				}
-			}
-			c.Count("sw.entries_streamed", int64(len(ents)))
-			c.Count("sw.rounds", 1)
-		}
-		check := func(when string) {
-			st := hist.CheckState(c, "C26|"+when, db, m, hist.StateOpts{Managed: managed, AllVersions: true, ExtraKeys: []string{"old00", "old19"}})
-			c.Count("sw.reads_checked", st.Gets+st.IterItems)
-			checkStructure(c, "C26|"+when, db, opt, true, func() map[string]any { return info })
-		}
-		if ok {
-			check("after-flush")
-			if !managed && concurrent {
-				checkNewCommitAbove(c, "C26|after-flush", db, []byte("b~new0"), fmt.Sprintf("M%d", i), info)
-				m.Put("b~new0", model.Ver{Ts: maxStoredVersion(db), Token: fmt.Sprintf("M%d", i), Len: 40})
-			}
-			if err := db.Close(); err != nil {
-				fail("close", err.Error())
-			}
-			db, err = openDB(opt, managed)
-			if err != nil {
-				fail("reopen", err.Error())
-				_ = os.RemoveAll(dir)
-				continue
-			}
-			check("after-reopen")
-			if !managed {
-				m2 := maxStoredVersion(db)
-				if m2 < maxStreamed {
-					fail("max-version", fmt.Sprintf("stored max version %d below streamed max %d", m2, maxStreamed))
-				}
-				checkNewCommitAbove(c, "C26|after-streamwriter", db, []byte("b~new"), fmt.Sprintf("N%d", i), info)
-			}
-		}
-		_ = db.Close()
-		_ = os.RemoveAll(dir)
-		c.Distinct(fmt.Sprintf("%s|managed=%v|incr=%v|streams=%d|done=%v|concurrent=%v", name, managed, incremental, min(nStreams, 4), done, concurrent))
-		if concurrent {
-			c.Count("sw.concurrent_write_runs", 1)
-		}
-		if i < 3 {
-			c.Sample(info)
-		}
+		c26Run(c, "C26", work, i, r)
 	}
 	c.Assume("streams are sorted and non-overlapping (the API's precondition); compaction disabled so that every streamed version stays readable")
+}
+
+// c26Run is one StreamWriter case; prop is the property it reports under (C11 re-uses the
+// non-managed concurrent-Write cases for its "after StreamWriter.Flush" clause).
+func c26Run(c *core.Ctx, prop, work string, i int, r *rand.Rand) {
+	managed := i%2 == 0
+	incremental := i%3 == 1
+	concurrent := i%8 == 5 || i%8 == 2 // Write called from one goroutine per stream
+	dir := filepath.Join(work, fmt.Sprintf("sw%d", i))
+	_ = os.MkdirAll(dir, 0o755)
+	opt, name := drvOptions(dir, i)
+	opt.NumVersionsToKeep = 1 << 30
+	// compaction is disabled here; incremental rounds may place many tables on L0, which must not
+	// stall the final memtable flush forever
+	opt.NumLevelZeroTablesStall = 1 << 20
+	sizes := []int{0, 10, int(opt.ValueThreshold) - 1, int(opt.ValueThreshold), int(opt.ValueThreshold) + 1, 700}
+	db, err := openDB(opt, managed)
+	if err != nil {
+		c.Inconclusive("open: " + err.Error())
+		return
+	}
+	c.Eval(1)
+	m := model.New()
+	info := map[string]any{"options": name, "managed": managed, "incremental": incremental, "concurrent_writes": concurrent}
+	fail := func(sig, what string) {
+		c.Violation(prop+"|"+sig, what, info)
+	}
+	ok := true
+	nStreams := 1 + r.Intn(8)
+	done := r.Intn(2) == 0
+	info["streams"], info["done_markers"] = nStreams, done
+	var maxStreamed uint64
+	rounds := 1
+	if incremental {
+		rounds = 1 + r.Intn(3)
+	} else if r.Intn(2) == 0 {
+		// previously filled database: Prepare must drop it
+		for j := 0; j < 20; j++ {
+			var err error
+			if managed {
+				txn := db.NewTransactionAt(5, true)
+				_ = txn.Set([]byte(fmt.Sprintf("old%02d", j)), []byte("old"))
+				err = txn.CommitAt(5, nil)
+			} else {
+				err = db.Update(func(txn *badger.Txn) error { return txn.Set([]byte(fmt.Sprintf("old%02d", j)), []byte("old")) })
+			}
+			if err != nil {
+				fail("prefill", err.Error())
+			}
+		}
+		info["prefilled"] = true
+	}
+	for round := 0; round < rounds && ok; round++ {
+		lo := uint64(10 + 100*round)
+		nk := 5 + r.Intn(150)
+		if concurrent {
+			nk = 3000 + r.Intn(3000)
+		}
+		ents := genStreamData(r, nk, lo, lo+90, fmt.Sprintf("s%d.", round), sizes)
+		if concurrent {
+			// the globally newest version sits in one of the small trailing ranges
+			for j := len(ents) - 1 - r.Intn(len(ents)/20); j >= 0; j-- {
+				if j == 0 || ents[j-1].key != ents[j].key {
+					ents[j].ver.Ts = lo + 95
+					break
+				}
+			}
+		}
+		sw := db.NewStreamWriter()
+		if incremental {
+			err = sw.PrepareIncremental()
+		} else {
+			err = sw.Prepare()
+		}
+		if err != nil {
+			fail("prepare", err.Error())
+			ok = false
+			break
+		}
+		if concurrent {
+			err = streamInConcurrent(sw, ents, nStreams)
+		} else {
+			err = streamIn(sw, r, ents, nStreams, done)
+		}
+		if err != nil {
+			fail("write", err.Error())
+			sw.Cancel()
+			ok = false
+			break
+		}
+		if err := sw.Flush(); err != nil {
+			fail("flush", err.Error())
+			ok = false
+			break
+		}
+		for _, e := range ents {
+			m.Put(e.key, e.ver)
+			if e.ver.Ts > maxStreamed {
+				maxStreamed = e.ver.Ts
+			}
+		}
+		c.Count("sw.entries_streamed", int64(len(ents)))
+		c.Count("sw.rounds", 1)
+	}
+	check := func(when string) {
+		st := hist.CheckState(c, prop+"|"+when, db, m, hist.StateOpts{Managed: managed, AllVersions: true, ExtraKeys: []string{"old00", "old19"}})
+		c.Count("sw.reads_checked", st.Gets+st.IterItems)
+		checkStructure(c, prop+"|"+when, db, opt, true, func() map[string]any { return info })
+	}
+	if ok {
+		check("after-flush")
+		if !managed && concurrent {
+			checkNewCommitAbove(c, prop+"|after-flush", db, []byte("b~new0"), fmt.Sprintf("M%d", i), info)
+			m.Put("b~new0", model.Ver{Ts: maxStoredVersion(db), Token: fmt.Sprintf("M%d", i), Len: 40})
+		}
+		if err := db.Close(); err != nil {
+			fail("close", err.Error())
+		}
+		db, err = openDB(opt, managed)
+		if err != nil {
+			fail("reopen", err.Error())
+			_ = os.RemoveAll(dir)
+			return
+		}
+		check("after-reopen")
+		if !managed {
+			m2 := maxStoredVersion(db)
+			if m2 < maxStreamed {
+				fail("max-version", fmt.Sprintf("stored max version %d below streamed max %d", m2, maxStreamed))
+			}
+			checkNewCommitAbove(c, prop+"|after-streamwriter", db, []byte("b~new"), fmt.Sprintf("N%d", i), info)
+		}
+	}
+	_ = db.Close()
+	_ = os.RemoveAll(dir)
+	c.Distinct(fmt.Sprintf("%s|managed=%v|incr=%v|streams=%d|done=%v|concurrent=%v", name, managed, incremental, min(nStreams, 4), done, concurrent))
+	if concurrent {
+		c.Count("sw.concurrent_write_runs", 1)
+	}
+	if i < 3 {
+		c.Sample(info)
+	}
+
 }
